@@ -153,6 +153,8 @@ type connInfo struct {
 	dialOK  bool
 	httpOn  int
 	httpOff int
+	// the history ended this connection before Stop
+	goneBeforeStop bool
 }
 
 type verdict struct {
@@ -163,6 +165,7 @@ type verdict struct {
 	stopReturned bool
 	onStopCalled bool
 	fails        []string
+	stopPanicked string
 	badfd        string
 	info         string
 	counters     map[string]int
@@ -186,6 +189,8 @@ type world struct {
 	missingAtReturn []string
 	// descriptors the harness kept for itself
 	ownFD map[int]bool
+	// connections reported open / close notifications they got, at the instant of return
+	opensAtReturn, closesAtReturn int
 }
 
 func newWorld(family string, isHTTP bool) *world {
@@ -237,6 +242,19 @@ func (w *world) userThread(name, what string, fn func()) {
 	})
 }
 
+// stopPanic is deferred on the stopping thread: a panic escaping Stop / Shutdown is a failure of
+// its own (e.g. "sync: negative WaitGroup counter" after a connection was torn down twice).
+func (w *world) stopPanic() {
+	if vsched.Aborting() {
+		return
+	}
+	if r := recover(); r != nil {
+		w.v.stopPanicked = fmt.Sprint(r)
+		w.fail("stop-panicked %s|the stopping call panicked: %v", w.v.family, r)
+		w.tick(42)
+	}
+}
+
 // afterReturn tells a user-level racer that the stopping call has already returned: a call that
 // only starts then is not "racing with Stop" (using a stopped engine is the caller's error) and
 // is skipped. The read is a recorded step; no scheduling point lies between it and the call.
@@ -265,6 +283,10 @@ func (w *world) snapshotAtReturn() {
 	for _, ci := range w.conns {
 		if (ci.opens > 0 || ci.dialOK) && ci.closes == 0 {
 			w.missingAtReturn = append(w.missingAtReturn, fmt.Sprintf("%s fd=%d", ci.origin, ci.fd))
+		}
+		if ci.opens > 0 || ci.dialOK {
+			w.opensAtReturn++
+			w.closesAtReturn += ci.closes
 		}
 	}
 	w.tick(31)
@@ -335,6 +357,9 @@ func (w *world) quiescenceOracle(lns []*fakeListener, epfds, evtfds []int, extra
 	if len(w.missingAtReturn) > 0 && !v.http {
 		w.fail("close-notification-missing-at-return %s|the stopping call returned while %d connection(s) that had been reported open had no close notification yet: %v",
 			fam, len(w.missingAtReturn), w.missingAtReturn)
+	}
+	if w.closesAtReturn != w.opensAtReturn && len(w.missingAtReturn) == 0 && !v.http {
+		w.fail("close-notification-count-at-return %s|when the stopping call returned %d connections had been reported open and they had got %d close notifications", fam, w.opensAtReturn, w.closesAtReturn)
 	}
 	if w.stopErr != nil {
 		w.fail("shutdown-error %s|Shutdown with a live context returned %v", fam, w.stopErr)
@@ -521,6 +546,9 @@ func coreBody(c ccfg) func() {
 			vsched.Point()
 			ci := w.info(cc, "unknown")
 			ci.closes++
+			if ci.closes > 1 {
+				w.fail("close-notification-duplicated %s|the %s connection fd=%d got its close notification %d times (each one releases the open-connection wait group)", v.family, ci.origin, ci.fd, ci.closes)
+			}
 			w.tick(2)
 		})
 		g.OnData(func(cc *nbio.Conn, data []byte) {
@@ -605,6 +633,36 @@ func coreBody(c ccfg) func() {
 				}
 				v.counters["dup_fd_at_stop"]++
 				setTarget(ci)
+			case "backlog-rst":
+				// a connection with a write backlog whose peer resets it: the poller's flush hits the
+				// hard error and tears the connection down before Stop
+				ci := w.newStream("add", 3)
+				if _, err := g.AddConn(ci.c); err != nil {
+					w.fail("harness|AddConn: %v", err)
+					return
+				}
+				if n, err := ci.c.Write(make([]byte, 5)); n != 5 || err != nil {
+					w.fail("harness|Write = %d, %v", n, err)
+					return
+				}
+				ci.peer.Reset()
+				ci.goneBeforeStop = true
+			case "fin-closed":
+				ci := w.newStream("add", 64)
+				if _, err := g.AddConn(ci.c); err != nil {
+					w.fail("harness|AddConn: %v", err)
+					return
+				}
+				ci.peer.CloseWrite()
+				ci.goneBeforeStop = true
+			case "user-closed":
+				ci := w.newStream("add", 64)
+				if _, err := g.AddConn(ci.c); err != nil {
+					w.fail("harness|AddConn: %v", err)
+					return
+				}
+				_ = ci.c.Close()
+				ci.goneBeforeStop = true
 			case "deadline":
 				ci := w.newStream("add", 64)
 				if _, err := g.AddConn(ci.c); err != nil {
@@ -662,6 +720,15 @@ func coreBody(c ccfg) func() {
 				}
 			}
 		}
+		for _, ci := range w.conns {
+			if ci.goneBeforeStop {
+				if ci.closes == 0 {
+					w.fail("harness|history: the %s connection fd=%d was not closed before Stop", ci.origin, ci.fd)
+					return
+				}
+				v.counters["conns_closed_before_stop"]++
+			}
+		}
 		v.counters["timers_armed_at_stop"] = vtime.Armed()
 		v.counters["conns_at_stop"] = len(g.VerifTable())
 
@@ -681,6 +748,7 @@ func coreBody(c ccfg) func() {
 
 		// ---- the stopping call and the racer
 		vsched.GoNamed("h.stopper", func() {
+			defer w.stopPanic()
 			v.stopStarted = true
 			w.tick(30)
 			switch c.stop {
@@ -857,6 +925,9 @@ func httpBody(c hcfg) func() {
 		if c.exec == "inline" {
 			fam = "http/inline-executor "
 		}
+		if c.iomod == "mixed" {
+			fam = "http/mixed "
+		}
 		w := newWorld(fam+families[c.racer], true)
 		v := w.v
 		defer func() { v.complete = true }()
@@ -967,6 +1038,7 @@ func httpBody(c hcfg) func() {
 		}
 
 		vsched.GoNamed("h.stopper", func() {
+			defer w.stopPanic()
 			v.stopStarted = true
 			w.tick(30)
 			switch c.stop {
@@ -1121,6 +1193,18 @@ func check(r *vsched.Result) string {
 	if !v.complete {
 		return fmt.Sprintf("harness-incomplete|the harness main thread did not finish; blocked: %v", all)
 	}
+	if v.stopPanicked != "" {
+		for _, f := range v.fails {
+			if strings.HasPrefix(f, "close-notification-duplicated") {
+				return f + " [then the stopping call panicked: " + v.stopPanicked + "]"
+			}
+		}
+		for _, f := range v.fails {
+			if strings.HasPrefix(f, "stop-panicked") {
+				return f + " [" + v.info + "]"
+			}
+		}
+	}
 	if v.stopStarted && !v.stopReturned {
 		phase := "wgConn.Wait"
 		switch {
@@ -1199,6 +1283,7 @@ var (
 		{h("dialok"), "none", 0}, {h("dialok"), "close", 0}, {h("dialok"), "fin", 0}, {h("dialok"), "data", 0},
 		{h("udp"), "none", 0}, {h("udp"), "udpdata", 0},
 		{h("sendfile"), "none", 0}, {h("sendfile"), "close", 0}, {h("sendfile"), "fin", 0},
+		{h("backlog-rst"), "none", 0}, {h("fin-closed"), "none", 0}, {h("user-closed"), "none", 0},
 	}
 	extraSingles = []ccase{{h("add"), "blocked-race", 0}, {h("accept"), "blocked-race", 1}, {h("dialok"), "blocked", 0}, {h("backlog"), "blocked-race", 0}}
 	doubles      = []ccase{
@@ -1207,6 +1292,7 @@ var (
 		{h("dialpend", "accept"), "resolve", 1}, {h("dialpend", "accept"), "accept", 1}, {h("udp", "add"), "udpdata", 0}, {h("udp", "add"), "fin", 0},
 		{h("dialok", "backlog"), "fin", 0}, {h("add", "dialto"), "fire", 0}, {h("add", "dialto"), "close", 0}, {h("accept", "udp"), "none", 1},
 		{h("dialto", "deadline"), "none", 0}, {h("add", "dialpend"), "dial", 0}, {h("backlog", "add"), "blocked", 0},
+		{h("backlog-rst", "add"), "none", 0}, {h("backlog-rst", "add"), "close", 0}, {h("fin-closed", "accept"), "none", 1}, {h("user-closed", "backlog"), "none", 0},
 	}
 	triples = []ccase{
 		{h("accept", "add", "dialpend"), "accept", 1}, {h("accept", "add", "dialpend"), "resolve", 1}, {h("accept", "add", "dialpend"), "close", 1},
@@ -1214,6 +1300,7 @@ var (
 		{h("accept", "accept", "add"), "accept", 2}, {h("accept", "accept", "add"), "fin", 2},
 		{h("dialok", "dialto", "add"), "fire", 0}, {h("dialok", "dialto", "add"), "data", 0}, {h("dialok", "dialto", "add"), "none", 0},
 		{h("add", "backlog", "dialpend"), "write", 0}, {h("udp", "accept", "deadline"), "accept", 1}, {h("add", "add", "add"), "blocked", 0},
+		{h("backlog-rst", "fin-closed", "add"), "none", 0}, {h("backlog-rst", "add", "dialpend"), "resolve", 0},
 	}
 	shutdownCases = []ccase{
 		{nil, "none", 1}, {h("accept"), "none", 1}, {h("accept"), "accept", 1}, {h("add"), "fin", 0}, {h("add"), "blocked", 0},
@@ -1287,28 +1374,47 @@ func build(tier string) []*vkit.Scenario {
 	}
 	poolQuick := []hcase{{nil, "none", false}, {nil, "none", true}, {h("inject"), "none", false}, {h("inject"), "blocked", false}, {h("request"), "none", false}, {h("accept"), "none", true}}
 	if !thorough {
-		core(cheapE, singles, "stop", 2, false)
-		core(midE, light(singles, true), "stop", 2, false)
-		core(midE, light(singles, false), "stop", 1, false)
-		core(heavyE[:2], singles, "stop", 1, false)
-		core(heavyE[2:], light(singles, true), "stop", 1, false)
-		core(fewE, light(doubles, true), "stop", 2, false)
-		core(fewE, light(doubles, false), "stop", 1, false)
-		core(fewE[:2], shutdownCases, "shutdown-bg", 2, false)
-		core(fewE[:1], shutdownCases, "shutdown-ctx", 2, false)
-		core(fewE, singles, "stop", 1, true)
-		core(fewE[:1], light(singles, true), "stop", 2, true)
-		core(fewE[:1], []ccase{{nil, "accept", 1}}, "stop", 2, true)
-		httpS(hCheap, hsingles, "nb", "stop", 2, false)
-		httpS(hCheap, hsingles, "nb", "shutdown-bg", 2, false)
-		httpS(hCheap[:2], hsingles[:8], "nb", "shutdown-ctx", 2, false)
+		// quick: full bound (P<=2) on three representative poller configurations, P<=1 on the
+		// others; the whole matrix at the higher bounds is the thorough tier
+		quiet := func(cs []ccase) []ccase {
+			var out []ccase
+			for _, c := range cs {
+				if c.nl == 2 {
+					continue // two acceptors and two pollers: thorough tier
+				}
+				if c.racer == "none" || c.racer == "close" || c.racer == "blocked" || len(c.hist) == 0 {
+					out = append(out, c)
+				}
+			}
+			return out
+		}
+		core(fewE, light(singles, true), "stop", 2, false)
+		core(fewE[:1], light(singles, false), "stop", 2, false)
+		core(fewE[1:], light(singles, false), "stop", 1, false)
+		core(cheapE, singles, "stop", 1, false)
+		core(midE, singles, "stop", 1, false)
+		core(midE, quiet(light(singles, true)), "stop", 2, false)
+		core(heavyE[:2], light(singles, true), "stop", 1, false)
+		core(heavyE[2:], quiet(light(singles, true)), "stop", 1, false)
+		core(fewE[:1], light(doubles, true), "stop", 2, false)
+		core(fewE, doubles, "stop", 1, false)
+		core(fewE[:1], shutdownCases, "shutdown-bg", 2, false)
+		core(fewE[:1], light(shutdownCases, true), "shutdown-ctx", 2, false)
+		core(fewE[1:2], shutdownCases, "shutdown-bg", 1, false)
+		core(fewE[:1], singles, "stop", 1, true)
+		core(fewE[:1], quiet(light(singles, true)), "stop", 2, true)
+		httpS(hCheap[:2], hsingles, "nb", "stop", 2, false)
+		httpS(hCheap[2:], hsingles, "nb", "stop", 1, false)
+		httpS(hCheap[:2], hsingles, "nb", "shutdown-bg", 2, false)
+		httpS(hCheap[2:], hsingles, "nb", "shutdown-bg", 1, false)
+		httpS(hCheap[:1], hsingles[:8], "nb", "shutdown-ctx", 2, false)
 		httpS(hCheap[:2], hdoubles, "nb", "stop", 1, false)
 		httpS(hPool, poolQuick, "nb", "stop", 1, false)
-		httpS(hPool, poolQuick, "nb", "shutdown-bg", 1, false)
+		httpS(hPool, poolQuick[:4], "nb", "shutdown-bg", 1, false)
 		httpS(hCheap[1:2], mixedCases, "mixed", "stop", 0, false)
-		httpS(hCheap[1:2], mixedCases, "mixed", "shutdown-bg", 0, false)
+		httpS(hCheap[1:2], mixedCases[:2], "mixed", "shutdown-bg", 0, false)
 		httpS(hCheap[:2], hsingles, "nb", "stop", 1, true)
-		return out
+		return spread(out)
 	}
 	// thorough: one more preemption everywhere it is affordable; the families whose interleaving
 	// count explodes (a second connection plus peer traffic) stay at the quick bound
@@ -1351,17 +1457,27 @@ func build(tier string) []*vkit.Scenario {
 	httpS(hCheap[1:2], mixedCases, "mixed", "shutdown-bg", 1, false)
 	httpS(hCheap[:1], hsingles, "nb", "stop", 2, true)
 	httpS(hCheap[1:], hsingles, "nb", "stop", 1, true)
-	return out
+	return spread(out)
+}
+
+// spread orders the scenarios by a hash of their names: vkit deals them out round-robin, and the
+// matrix order is periodic (the expensive cases of every configuration would land on the same
+// worker).
+func spread(scs []*vkit.Scenario) []*vkit.Scenario {
+	sort.SliceStable(scs, func(i, j int) bool {
+		return vsched.HashString(scs[i].Name) < vsched.HashString(scs[j].Name)
+	})
+	return scs
 }
 
 func main() {
 	defer ekit.CleanupFiles()
 	vkit.Main(&vkit.Spec{
 		Property: "C18", Level: "model_checking",
-		Rule: "one scenario = engine (core nbio.Engine / nbhttp.Engine) x configuration (epoll mode LT/ET/ONESHOT, NPoller 1-2, 0-2 fake listeners, sync read or async read with pool / goroutine-per-task / inline executor; HTTP: pool / inline handler executor, IOModNonBlocking / IOModMixed) x settled history of 0-3 events (accepted connection, AddConn, write backlog, queued Sendfile range with dup'ed descriptor, read deadline, pending / timed / connected async dial, UDP listener with a session; HTTP: injected, accepted or transferred connection, handled request, partial request) x one activity racing with the stopping call (listener hands out one more connection, user Close, peer FIN, peer data / request, callback parked on a latch, dial resolving, deadline firing, AddConn / DialAsync / Write by the user, datagram of a new remote) x stopping call (Stop, Shutdown(Background), Shutdown(live cancel ctx)); every interleaving within the preemption bound; non-trivial = the stopping call was started",
+		Rule: "one scenario = engine (core nbio.Engine / nbhttp.Engine) x configuration (epoll mode LT/ET/ONESHOT, NPoller 1-2, 0-2 fake listeners, sync read or async read with pool / goroutine-per-task / inline executor; HTTP: pool / inline handler executor, IOModNonBlocking / IOModMixed) x settled history of 0-3 events (accepted connection, AddConn, connection already ended before Stop by a peer reset of a write backlog / peer FIN / user Close, write backlog, queued Sendfile range with dup'ed descriptor, read deadline, pending / timed / connected async dial, UDP listener with a session; HTTP: injected, accepted or transferred connection, handled request, partial request) x one activity racing with the stopping call (listener hands out one more connection, user Close, peer FIN, peer data / request, callback parked on a latch, dial resolving, deadline firing, AddConn / DialAsync / Write by the user, datagram of a new remote) x stopping call (Stop, Shutdown(Background), Shutdown(live cancel ctx)); every interleaving within the preemption bound; non-trivial = the stopping call was started",
 		Assumptions: []string{
 			"a connection that a listener's Accept returned before listener.Close() was called is the engine's to close; the fake listener never hands out a connection after Close (what stays queued is the harness's own)",
-			"'close notification delivered before Stop returns' is judged per connection that got an open notification (OnOpen or a dial callback with nil error), counted when the close callback is entered; applied to the core engine only, as the statement says",
+			"'close notification delivered before Stop returns' is judged per connection that got an open notification (OnOpen or a dial callback with nil error), counted when the close callback is entered; applied to the core engine only, as the statement says; a second close notification for the same connection is a violation too (it releases the wait group Stop relies on)",
 			"a callback that the user blocks is released by the harness before the final verdict; Stop may or may not wait for it",
 			"time is virtual: no connection deadline fires unless the scenario says so; a stopping call that can only return after a keep-alive / read deadline expires counts as not returning; the nbhttp Shutdown poll ticker is fired whenever the system is idle",
 			"a system call on a closed descriptor number is reported (fd-reuse hazard) even if it fails harmlessly with EBADF in the model",
